@@ -454,7 +454,9 @@ def dims_beat(ctx: Ctx) -> None:
                 ok, detail = False, str(e)
             ctx.expect("R-DIM", f, "beats elapsed = seconds / 60 * bpm is in beats", ok, detail, f"{src(inline(r.value, f))}: {detail}", node=r)
             wrapped = isinstance(r.value, ast.Call) and callee_name(ctx, f, r.value) == "simfile.timing.Beat" and len(r.value.args) == 1
-            isfloat = wrapped and any(isinstance(x, ast.Call) and isinstance(x.func, ast.Name) and x.func.id == "float" for x in ast.walk(inline(r.value.args[0], f)))
+            arg0 = inline(r.value.args[0], f) if wrapped else None
+            exact_wrapper = isinstance(arg0, ast.Call) and isinstance(arg0.func, ast.Name) and arg0.func.id in ("Fraction", "Decimal", "int", "round", "str", "Beat")
+            isfloat = wrapped and not exact_wrapper and any(isinstance(x, ast.Call) and isinstance(x.func, ast.Name) and x.func.id == "float" for x in ast.walk(arg0))
             ctx.expect("R-DIM", f, "the result is snapped to the tick grid (Beat of a float)", bool(wrapped and isfloat), "", f"{src(r.value)}", node=r)
             ctx.expect("R-TABLE", f, "beats are extrapolated only outside pauses", neg == [{"STOP", "DELAY"}] or not fs, unparse_facts(fs), "", node=r)
             oke = any(ast.unparse(x) == f"{tp} - {sn}.event.time" for x in ast.walk(inline(r.value, f)))
@@ -748,13 +750,16 @@ def displaybpm_rule(ctx: Ctx) -> None:
     def has(fs, extra):
         return sorted(fs) == sorted(pre + extra)
     ok_rand = any(k == "RandomDisplayBPM()" and has(fs, [(f"{dv} == '*'", True)]) for k, fs in table.items())
-    ok_range = any(k.startswith("RangeDisplayBPM(") and "Decimal(min_bpm)" in k and "Decimal(max_bpm)" in k and has(fs, [(f"{dv} == '*'", False), (f"':' in {dv}", True)]) for k, fs in table.items())
+    part0 = [b for bs in loc.b.values() for b in bs if b.kind.startswith("unpack") and ast.unparse(b.value) == f"{dv}.partition(':')"]
+    pn = {b.index: n for n, bs in loc.b.items() for b in bs if b in part0}
+    lo_, hi_ = pn.get((0,), "?"), pn.get((2,), "?")
+    ok_range = any(k == f"RangeDisplayBPM(min=Decimal({lo_}), max=Decimal({hi_}))" and has(fs, [(f"{dv} == '*'", False), (f"':' in {dv}", True)]) for k, fs in table.items())
     ok_stat = any(k == f"StaticDisplayBPM(value=Decimal({dv}))" and has(fs, [(f"{dv} == '*'", False), (f"':' in {dv}", False)]) for k, fs in table.items())
     ctx.expect("R-TABLE", f, "'*' -> random", ok_rand, "", str(table), node=f.node)
     ctx.expect("R-TABLE", f, "'a:b' -> range of the two numbers", ok_range, "", str(table), node=f.node)
     part = [b for bs in loc.b.values() for b in bs if b.kind.startswith("unpack") and ast.unparse(b.value) == f"{dv}.partition(':')"]
     idx = sorted((b.index, n) for n, bs in loc.b.items() for b in bs if b in part)
-    ctx.expect("R-TABLE", f, "the range bounds are the text before and after the ':'", [i for i, n in idx] == [(0,), (1,), (2,)] and idx[0][1] == "min_bpm" and idx[2][1] == "max_bpm", "", str(idx), node=f.node)
+    ctx.expect("R-TABLE", f, "the range bounds are the text before and after the ':'", [i for i, n in idx] == [(0,), (1,), (2,)], "", str(idx), node=f.node)
     ctx.expect("R-TABLE", f, "one number -> static", ok_stat, "", str(table), node=f.node)
     tries = [t for t in body_walk(f.node) if isinstance(t, ast.Try)]
     okt = len(tries) == 1 and len(tries[0].handlers) == 1 and ast.unparse(tries[0].handlers[0].type) == "InvalidOperation" and not tries[0].finalbody \
